@@ -298,6 +298,18 @@ def obj_dict(x):
     return dict(x)
 
 
+def dflt(e):
+    from statham.schema.constants import NotPassed
+    import warnings
+    with warnings.catch_warnings():
+        warnings.simplefilter("ignore")
+        return e(NotPassed()) if not isinstance(e, type) else e()
+
+
+def prop_for(props, key):
+    return props[key]
+
+
 def rbd(x):
     from statham.schema.validation import base
     if x is True:
